@@ -111,6 +111,7 @@ class LifeRun:
         self.run_only_used = 0
         self.finished_body = False
         self.exit_exc = "pending"
+        self.saw_exit = False
         for p in self.patches or []:
             p.start()
         if scen.get("prior_session"):
@@ -182,6 +183,11 @@ class LifeRun:
               "alive": self.alive(), "pending": len(self.loop.pending_jobs()), "connects": c, "disconnects": dcount,
               "main_done": self.main.done(), "owner": "", "kind": "", "mode": ""}
         ev.update(extra)
+        if ev["main_done"] and not self.saw_exit:
+            self.saw_exit = True
+            ev["exit_instant"] = True      # the first observation after the caller got control back
+        else:
+            ev["exit_instant"] = False
         self.events.append(ev)
 
     # -- commands -------------------------------------------------------------------------
